@@ -58,7 +58,7 @@ Theorem C09_validate_exact_deepcopy : forall typs, add_deepcopy typs = Ok <-> ex
 Proof. exact validate_exact_deepcopy. Qed.
 Print Assumptions C09_validate_exact_deepcopy.
 Theorem C09_validate_exact_curry_flip : forall typs,
-  add_curry typs = Ok <-> exists p1 p2 ps rs v, typs = [ASig (TCons p1 (TCons p2 ps)) rs v].
+  add_curry typs = Ok <-> exists p1 p2 ps rs, typs = [ASig (TCons p1 (TCons p2 ps)) rs false].
 Proof. exact validate_exact_curry. Qed.
 Print Assumptions C09_validate_exact_curry_flip.
 Theorem C09_validate_exact_dup : forall typs, add_dup typs = Ok <-> exists d t, typs = [AChan d t].
@@ -72,7 +72,7 @@ Proof. exact validate_exact_tuple. Qed.
 Print Assumptions C09_validate_exact_tuple.
 Theorem C09_validate_exact_uncurry : forall typs,
   add_uncurry typs = Ok <->
-  exists a ps rs v v', typs = [ASig (TCons a TNil) (TCons (ASig ps rs v') TNil) v].
+  exists a ps rs, typs = [ASig (TCons a TNil) (TCons (ASig ps rs false) TNil) false].
 Proof. exact validate_exact_uncurry. Qed.
 Print Assumptions C09_validate_exact_uncurry.
 Theorem C09_validate_exact_union_intersect : forall typs,
